@@ -29,7 +29,7 @@ META = {
 NPM = 'Scalibr.Npm.'
 POM = 'Scalibr.Pom.'
 THEOREMS = [NPM + 'C13_npm_escape', NPM + 'C13_npm_roundtrip_partial', NPM + 'C13_npm_identity', NPM + 'C13_npm_no_silent_success',
-            NPM + 'C13_npm_present_applied', NPM + 'C13_npm_alias_at_witness', NPM + 'C13_npm_alias_separate_fixed_witness', NPM + 'C13_npm_read_complete', NPM + 'C13_npm_read_complete_old_witness', NPM + 'C13_npm_absent_key_witness',
+            NPM + 'C13_npm_present_applied', NPM + 'C13_npm_alias_at_witness', NPM + 'C13_npm_alias_separate_fixed_witness', NPM + 'C13_npm_read_complete', NPM + 'C13_npm_read_complete_old_witness', NPM + 'C13_npm_absent_key_witness', NPM + 'C13_npm_every_update_applied',
             NPM + 'C13_npm_bytes_partial', NPM + 'C13_npm_bytes_untouched_partial', NPM + 'C13_npm_bytes_identity',
             POM + 'C13_pom_props_total', POM + 'C13_pom_props_fuel_adequate', POM + 'C13_pom_props_sound', POM + 'C13_pom_props_repeated_name_fixed',
             POM + 'C13_pom_props_fixed_witnesses', POM + 'C13_pom_identity', POM + 'C13_pom_invalid_name_error',
@@ -169,9 +169,9 @@ def run(ctx):
         else:
             if r in ('ok-nofile', 'ok-rereaderr', 'err-but-wrote'):
                 return 'pom.xml Write: ' + r
-            if r == 'ok' and fi.get('twin') == '0':
-                return ('pom.xml: a plugin under <build><plugins> whose dependencies Read does not list (no update is addressed to them) was rewritten along '
-                        'with its pluginManagement twin')
+            if r == 'ok' and fi.get('foreign') == '0':
+                return ('pom.xml: an element Read takes nothing from (dependencies of a plugin under <build><plugins> or of a profile\'s plugin, <properties> of a '
+                        '<developer>) was rewritten: no update is addressed to it')
             if r == 'ok' and fm.get('added', '-') not in ('-', ''):
                 got = fi.get('reqs', '').split(',')
                 if any(a not in got for a in fm['added'].split(',')):
